@@ -217,6 +217,10 @@ var degenerateForms = []string{
 	// directional channels (host values; the bundled time package hands out receive-only ones)
 	"<-sendonly", "x8 = <-sendonly", "x8, ok8 = <-sendonly", "for q in sendonly { break }", "sendonly <- 1\nlen(sendonly)", "close(recvonly)", "recvonly <- 1", "ch <- recvonly", "sendonly <- recvonly", "recvonly <- sendonly",
 	"tm9 = import(\"time\")\ntm9.After(1) <- 5", "tm9 = import(\"time\")\nclose(tm9.After(1))", "tm9 = import(\"time\")\ntk = tm9.NewTicker(1000000)\ntk.C <- 1", "len(recvonly)", "len(sendonly)",
+	// member stores into nil maps with byte / rune keys; `in` on typed lists whose elements cannot be compared with ==
+	"nm = make([]map[rune]int64, 1)\nnm[0].x = 1\nnm[0]", "nm = make([]map[byte]int64, 1)\nnm[0].x = 1", "nm = make([]map[rune]string, 1)\nnm[0].y = \"v\"\nnm[0].y", "mr = make(map[rune]int64)\nmr.x = 1\nmr.x", "st9 = make(struct { M map[rune]int64 })\nst9.M.k = 1",
+	"aa = make([][]int64, 2)\naa[0] in aa", "aa = make([][]int64, 2)\naa[0] = [1]\n[1] in aa", "ms = make([]map[string]int64, 1)\nms[0] in ms", "ms = make([]map[string]int64, 1)\n{} in ms", "fs = make([]func(), 1)\nfs[0] in fs",
+	"ss = make([]struct { A []int64 }, 2)\nss[0] in ss", "aa = make([][]int64, 1)\nswitch aa[0] { case aa[0]: 1 }", "aa = make([][]int64, 1)\naa[0] == aa[0]",
 	"func rec(n) { return rec(n) }", "type T struct", "struct", "chan", "map", "len", "return 1, ", "throw", "break", "continue", "return",
 }
 
